@@ -29,15 +29,25 @@ type faultCase struct {
 
 func genFaultCase(t *rapid.T) faultCase {
 	c := faultCase{Op: rapid.SampledFrom([]string{"merge", "persist", "writeto"}).Draw(t, "op")}
-	pc := genPlanCase(t, planGenOpts{synonyms: 1, vectors: vectorsMaybe, forceDV: true})
+	pc := genPlanCase(t, planGenOpts{synonyms: 1, vectors: vectorsMaybe, forceDV: true, bigValuesPct: 30})
 	if c.Op == "merge" {
 		c.Plan = pc.Plan
 	} else {
 		// first leaf of the generated plan
 		var leaf *spec.MergePlan
+		best := -1
 		walkPlan(pc.Plan, func(p *spec.MergePlan) {
-			if leaf == nil && p.IsLeaf() {
-				leaf = p
+			if !p.IsLeaf() {
+				return
+			}
+			n := 0
+			for _, d := range p.Leaf.Docs {
+				for _, f := range d.Fields {
+					n += len(f.Value)
+				}
+			}
+			if n > best { // the leaf with most stored bytes (bodies >= 64 KiB take other write paths)
+				leaf, best = p, n
 			}
 		})
 		c.Plan = &spec.MergePlan{Leaf: leaf.Leaf, ChunkMode: leaf.ChunkMode}
